@@ -278,7 +278,7 @@ impl Property for C16 {
             }
             // namespace & can_have_content
             let html = *ns == HTML_NS;
-            let expect_content = !tree::is_void(name, html, r.self_closing, sc.esi);
+            let expect_content = !tree::is_void(name, name_pc, html, r.self_closing, sc.esi);
             if *can_have_content != expect_content {
                 return Ok(Err(Fail::new("C16.read", format!("tag {}: can_have_content()={can_have_content}, expected {expect_content} (ns {ns})", show(tag)))));
             }
